@@ -17,7 +17,7 @@ import (
 
 func init() {
 	suites["om"] = suite{
-		rule: "C40: episodes over a fake server with a virtual clock. (1) script-level: hashSaveScript / jsonSaveScript with arbitrary ARGV (matching, stale and missing versions, verless, odd/even lengths = with/without PEXPIREAT, past/future expiry, non-canonical numerals, versions at the 10^14 printing limit) vs the Lean script models; (2) end-to-end: the real om.NewHashRepository / NewJSONRepository Save, Fetch, FetchCache (client-side cache with invalidation pushes), Remove on entities covering every converter of om/conv.go (int64, string, bool, *int64, *string, *bool, []byte, []float32, []float64, struct, *struct, []struct, time.Time exat) and a verless schema; every successful Save is followed by a Fetch and a '!fetch-after-save' oracle line answered by the specification (the saved entity with version+1); (3) races: n goroutines Save the same version concurrently ('!race' oracle: exactly one wins, the rest ErrVersionMismatch, version+1, the stored entity is the winner's); non-trivial = distinct op",
+		rule: "C40: episodes over a fake server with a virtual clock. (1) script-level: hashSaveScript / jsonSaveScript with arbitrary ARGV (matching, stale and missing versions, verless, odd/even lengths = with/without PEXPIREAT, past/future expiry, non-canonical numerals, versions at the 10^14 printing limit) vs the Lean script models; (2) end-to-end: the real om.NewHashRepository / NewJSONRepository Save, Fetch, FetchCache (client-side cache with invalidation pushes), Remove on entities covering every converter of om/conv.go (int64, string, bool, *int64, *string, *bool, []byte, []float32, []float64, struct, *struct, []struct, time.Time exat) and a verless schema; every successful Save is followed by a Fetch and a '!fetch-after-save' oracle line answered by the specification (the saved entity with version+1); (2b) SaveMulti of 3 and 4 versioned entities in every pattern of fresh/stale members for both repositories ('!sm' oracle per member: ErrVersionMismatch iff the member was stale, a saved member's in-memory version is the stored one); (3) races: n goroutines Save the same version concurrently ('!race' oracle: exactly one wins, the rest ErrVersionMismatch, version+1, the stored entity is the winner's); non-trivial = distinct op",
 		run:  runOm,
 		replay: func(c *Ctx, lines []string) {
 			ep := &omEp{}
@@ -225,6 +225,24 @@ func splitDoc(doc, vname string) (string, string) {
 	return ver, string(bs)
 }
 
+// version stored for a key right now ("-": no key / no version)
+func (e *omEp) storedVer(rkey string) string {
+	e.srv.mu.Lock()
+	defer e.srv.mu.Unlock()
+	v := e.srv.look(rkey, e.srv.clock())
+	if v == nil {
+		return "-"
+	}
+	if v.kind == 'j' {
+		ver, _ := splitDoc(v.s, "ver")
+		return ver
+	}
+	if s, ok := v.h["ver"]; ok {
+		return s
+	}
+	return "-"
+}
+
 func saveAns(err error, ver int64) string {
 	switch {
 	case err == nil:
@@ -378,6 +396,43 @@ func (e *omEp) op(c *Ctx, line string) {
 		e.srv.mu.Unlock()
 		e.srv.flush()
 		c.Emit(line, e.dump(w[1]), true)
+	case "hsavemulti", "jsavemulti": // SaveMulti of entities key:ver[:body], entity i has S = "m<i>" and I/N = i
+		var parts []string
+		var before []string
+		if w[0] == "hsavemulti" {
+			ents := make([]*omEnt, len(w)-1)
+			for i, x := range w[1:] {
+				p := strings.SplitN(x, ":", 2)
+				ver, _ := strconv.ParseInt(p[1], 10, 64)
+				ents[i] = &omEnt{ID: unhx(p[0]), Ver: ver, S: fmt.Sprintf("m%d", i), I: int64(i)}
+				before = append(before, e.storedVer("e:"+ents[i].ID))
+			}
+			errs := e.hrepo.SaveMulti(ctx, ents...)
+			for i, en := range ents {
+				parts = append(parts, fmt.Sprintf("%s:%d", strings.Fields(saveAns(errs[i], 0))[0], en.Ver))
+			}
+		} else {
+			ents := make([]*omJSON, len(w)-1)
+			for i, x := range w[1:] {
+				p := strings.SplitN(x, ":", 3)
+				ver, _ := strconv.ParseInt(p[1], 10, 64)
+				ents[i] = &omJSON{}
+				_ = json.Unmarshal([]byte(unhx(p[2])), ents[i])
+				ents[i].ID, ents[i].Ver = unhx(p[0]), ver
+				before = append(before, e.storedVer("j:"+ents[i].ID))
+			}
+			errs := e.jrepo.SaveMulti(ctx, ents...)
+			for i, en := range ents {
+				parts = append(parts, fmt.Sprintf("%s:%d", strings.Fields(saveAns(errs[i], 0))[0], en.Ver))
+			}
+		}
+		c.Hit(w[0])
+		c.Emit(line, strings.Join(parts, ","), true)
+		// per entity, judged by the specification from what was stored before the batch (keys of a batch are distinct)
+		for i, x := range w[1:] {
+			p := strings.SplitN(x, ":", 3)
+			c.Emit(fmt.Sprintf("!sm %s %s", p[1], before[i]), parts[i], true)
+		}
 	case "race", "!race": // race key ver n: n goroutines save entities based on the same version
 		key := unhx(w[1])
 		ver, _ := strconv.ParseInt(w[2], 10, 64)
@@ -675,6 +730,55 @@ func runOm(c *Ctx) {
 		}
 	}
 
+	// (2b) SaveMulti: batches of 3 and 4 versioned entities on distinct keys, every pattern of fresh / stale members
+	// (stale = the stored version was advanced by another Save), hash and JSON repositories
+	batch := 0
+	for _, n := range []int{3, 4} {
+		for mask := 0; mask < 1<<n; mask++ {
+			if c.Tier == "quick" && n == 4 && mask%3 != 1 {
+				continue
+			}
+			for _, kind := range []string{"h", "j"} {
+				if batch%6 == 0 {
+					start()
+				}
+				batch++
+				var items []string
+				for i := 0; i < n; i++ {
+					key := fmt.Sprintf("sm%d_%d", batch, i)
+					stale := mask&(1<<i) != 0
+					given := int64(0)
+					body := ""
+					if kind == "j" {
+						_, body = splitDoc(jsonImg(&omJSON{ID: key, S: fmt.Sprintf("m%d", i), N: int64(i)}), "ver")
+					}
+					switch {
+					case stale: // somebody else saved version 0 -> stored 1; the batch member is still based on 0
+						if kind == "h" {
+							ep.op(c, fmt.Sprintf("save e %s 0 0 %s", hx(key), entFields(&omEnt{ID: key})))
+						} else {
+							ep.op(c, fmt.Sprintf("jsave %s 0 %s", hx(key), hx(body)))
+						}
+					case i%2 == 1: // an existing entity saved once, the member is based on the stored version 1
+						if kind == "h" {
+							ep.op(c, fmt.Sprintf("save e %s 0 0 %s", hx(key), entFields(&omEnt{ID: key})))
+						} else {
+							ep.op(c, fmt.Sprintf("jsave %s 0 %s", hx(key), hx(body)))
+						}
+						given = 1
+					}
+					if kind == "h" {
+						items = append(items, fmt.Sprintf("%s:%d", hx(key), given))
+					} else {
+						items = append(items, fmt.Sprintf("%s:%d:%s", hx(key), given, hx(body)))
+					}
+				}
+				ep.op(c, kind+"savemulti "+strings.Join(items, " "))
+				// the saved members equal what Fetch returns and can be saved again
+				ep.op(c, fmt.Sprintf("%s %s", map[string]string{"h": "fetch e", "j": "jfetch"}[kind], strings.SplitN(items[n-1], ":", 2)[0]))
+			}
+		}
+	}
 	// (3) races
 	for ep0 := 0; ep0 < 2+c.N/100; ep0++ {
 		start()
